@@ -200,6 +200,101 @@ func init() {
 		},
 	}
 
+	// ---- data: hostile client data through every request kind, read back by reads, searches, claims, messages (C20) ----
+	families["data"] = &family{
+		name: "data", bgs: []string{"TimeoutPromises", "EnqueueTasks", "TimeoutTasks"}, requests: 22, maxSteps: 60, fault: 0.02, timeStep: smallStep, fifo: true,
+		senderOK: 0.7, config: baseConfig,
+		gen: func(w *world) *t_api.Request {
+			r := w.r
+			long := ""
+			for i := 0; i < 40; i++ {
+				long += "lng/" + fmt.Sprint(i)
+			}
+			ids := []string{"a/b", "a:b", "a b", " a", "a ", "A", "a", "\u00e4", "\u65e5\u672c", "<x>&\"'", "a%2Fb", "__invoke:a", "a.1000", "x\ty", "{{.id}}", "a_c", "a%c", long}
+			strs := []string{"", " ", "v", "V", "a/b:c", "<b>&amp;\"q\"'", "\u00e9\u00e8", "{\"j\":1}", "null", "line\nbreak", "tab\t", "%s%d", long}
+			hmap := func() map[string]string {
+				switch r.intn(4) {
+				case 0:
+					return nil
+				case 1:
+					return map[string]string{}
+				default:
+					m := map[string]string{}
+					for i := 0; i < 1+r.intn(3); i++ {
+						m[pick(r, strs)] = pick(r, strs)
+					}
+					return m
+				}
+			}
+			data := func() []byte {
+				switch r.intn(5) {
+				case 0:
+					return nil
+				case 1:
+					return []byte{}
+				case 2:
+					return []byte{0, 1, 2, 0xff, 0xfe, '"', '\\', 0x80}
+				default:
+					return []byte(pick(r, strs))
+				}
+			}
+			id := pick(r, ids)
+			var tids []string
+			tcount := map[string]int{}
+			if w.snap != nil {
+				for _, t := range w.snap.tasks {
+					tids = append(tids, t.rec.Id)
+					tcount[t.rec.Id] = t.rec.Counter
+				}
+			}
+			tids = append(tids, "__invoke:a/b")
+			switch x := r.intn(20); {
+			case x < 7:
+				tags := hmap()
+				if r.chance(0.4) {
+					if tags == nil {
+						tags = map[string]string{}
+					}
+					tags["resonate:invoke"] = pick(r, []string{"default", "name with spaces", "poll://g/i d", `{"type":"poll","data":{"group":"g r","id":"i/d"}}`, "<recv>&"})
+				}
+				to := pick(r, []int64{w.now + 40, w.now + 2, 9223372036854775807, 1 << 40, w.now})
+				return &t_api.Request{Kind: t_api.CreatePromise, CreatePromise: &t_api.CreatePromiseRequest{
+					Id: id, IdempotencyKey: key(r), Param: promise.Value{Headers: hmap(), Data: data()}, Timeout: to, Tags: tags}}
+			case x < 10:
+				return &t_api.Request{Kind: t_api.CompletePromise, CompletePromise: &t_api.CompletePromiseRequest{
+					Id: id, IdempotencyKey: key(r), State: pick(r, []promise.State{promise.Resolved, promise.Rejected, promise.Canceled}),
+					Value: promise.Value{Headers: hmap(), Data: data()}}}
+			case x < 13:
+				return &t_api.Request{Kind: t_api.ReadPromise, ReadPromise: &t_api.ReadPromiseRequest{Id: id}}
+			case x < 14:
+				return &t_api.Request{Kind: t_api.SearchPromises, SearchPromises: &t_api.SearchPromisesRequest{
+					Id: "*", States: []promise.State{promise.Pending, promise.Resolved, promise.Rejected, promise.Canceled, promise.Timedout}, Limit: 2 + r.intn(4)}}
+			case x < 16:
+				rc, _ := json.Marshal(pick(r, []string{"default", "name with spaces", "<recv>&\"", "\u00e4"}))
+				return &t_api.Request{Kind: t_api.CreateCallback, CreateCallback: &t_api.CreateCallbackRequest{
+					PromiseId: id, RootPromiseId: pick(r, ids), Timeout: pick(r, []int64{w.now + 30, 9223372036854775807}), Recv: rc}}
+			case x < 17:
+				rc, _ := json.Marshal(pick(r, []string{"default", "poll://g/a b"}))
+				return &t_api.Request{Kind: t_api.CreateSubscription, CreateSubscription: &t_api.CreateSubscriptionRequest{
+					Id: pick(r, ids), PromiseId: id, Timeout: w.now + 30, Recv: rc}}
+			case x < 19:
+				tid := pick(r, tids)
+				c := tcount[tid]
+				if c == 0 {
+					c = 1
+				}
+				return &t_api.Request{Kind: t_api.ClaimTask, ClaimTask: &t_api.ClaimTaskRequest{Id: tid, Counter: c, ProcessId: pick(r, strs[1:]), Ttl: pick(r, []int{1, 50})}}
+			default:
+				tid := pick(r, tids)
+				c := tcount[tid]
+				if c == 0 {
+					c = 1
+				}
+				return &t_api.Request{Kind: t_api.CompleteTask, CompleteTask: &t_api.CompleteTaskRequest{Id: tid, Counter: c}}
+			}
+		},
+	}
+
 	// ---- search: a population of promises, searches with small pages, clients that follow the cursors (C14) ----
 	families["search"] = &family{
 		name: "search", bgs: []string{"TimeoutPromises"}, requests: 30, maxSteps: 75, fault: 0.03, timeStep: smallStep, fifo: true,
@@ -316,9 +411,12 @@ func init() {
 					}
 					ptags["resonate:invoke"] = pick(r, []string{"default", "poll://g/i"})
 				}
+				if r.chance(0.2) {
+					id = pick(r, []string{"a<b&c", "s/1", "s 1", "\u00e4"})
+				}
 				return &t_api.Request{Kind: t_api.CreateSchedule, CreateSchedule: &t_api.CreateScheduleRequest{
 					Id: id, Description: pick(r, []string{"", "d"}), Cron: pick(r, []string{"* * * * * *", "*/2 * * * * *", "@every 3s"}),
-					Tags: smallMap(r), PromiseId: pick(r, []string{"{{.id}}.{{.timestamp}}", "x.{{.timestamp}}", "fixed"}),
+					Tags: smallMap(r), PromiseId: pick(r, []string{"{{.id}}.{{.timestamp}}", "{{.id}}.{{.timestamp}}", "x.{{.timestamp}}", "fixed", "s.{{.timestamp"}),
 					PromiseTimeout: int64(pick(r, []int{0, 1000, 5000})), PromiseParam: promise.Value{Headers: smallMap(r), Data: smallData(r)},
 					PromiseTags: ptags, IdempotencyKey: key(r)}}
 			case 4, 5:
